@@ -50,3 +50,21 @@ def covering(factors: dict, t: int, rng, valid=None, candidates=40):
         for cs in combos:
             uncovered.discard((cs, tuple(best[c] for c in cs)))
     return [as_cfg(r) for r in rows]
+
+
+def coverage(rows, factors, t, valid=None):
+    """Fraction of feasible t-tuples of factor values covered by `rows` (measured, not assumed)."""
+    names = list(factors)
+    t = min(t, len(names))
+    tot = cov = 0
+    seen = {}
+    for r in rows:
+        for cs in itertools.combinations(range(len(names)), t):
+            seen.setdefault(cs, set()).add(tuple(r[names[c]] if not isinstance(r[names[c]], list) else tuple(r[names[c]]) for c in cs))
+    for cs in itertools.combinations(range(len(names)), t):
+        for vs in itertools.product(*[factors[names[c]] for c in cs]):
+            tot += 1
+            key = tuple(v if not isinstance(v, list) else tuple(v) for v in vs)
+            if key in seen.get(cs, ()):
+                cov += 1
+    return dict(t=t, tuples=tot, covered=cov, fraction=round(cov / max(tot, 1), 4))
